@@ -15,6 +15,8 @@ mod c08;
 mod c09;
 mod c11;
 mod c12;
+mod c13;
+mod c14;
 mod c17;
 mod cli;
 mod driver;
@@ -24,8 +26,10 @@ mod gen;
 mod imp;
 mod loc;
 mod model;
+mod pool;
 mod sched;
 mod sfam;
+mod surface;
 mod xlate;
 
 use driver::*;
@@ -51,6 +55,8 @@ fn property(id: &str) -> Option<Box<dyn Property>> {
         "C09" => Box::new(c09::C09::new()),
         "C11" => Box::new(c11::C11::new()),
         "C12" => Box::new(c12::C12::new()),
+        "C13" => Box::new(c13::C13::new()),
+        "C14" => Box::new(c14::C14::new()),
         "C17" => Box::new(c17::C17::new()),
         _ => return None,
     })
